@@ -69,6 +69,13 @@ class ClipC10(_FloatOperation):
         return _FloatDataType(min(data.data, upper))
 
 
+class UsesName(_FloatOperation):
+    """an operation with a string parameter (a file name)"""
+
+    def _process_logic(self, data, name: str):
+        return _FloatDataType(data.data + len(name))
+
+
 class RaisesNoArgs(_FloatOperation):
     def _process_logic(self, data):
         raise KeyError()
@@ -88,6 +95,9 @@ CONFIGS = [(n, nodes, ctx) for n, nodes, ctx in idlib.base_configs()] + [
     ("first-node-consumes-a-generator", [{"processor": UsesItems}], lambda: (_FloatDataType(1.0), {"items": (x for x in (1.5, 2.5, 4.0))})),
     ("param-non-finite-default", [{"processor": "FloatValueDataSourceWithDefault"}, {"processor": ClipC10}], {}),
     ("param-non-finite-from-context", [{"processor": "FloatValueDataSourceWithDefault"}, {"processor": ClipC10}], {"upper": float("nan")}),
+    # strings that are not valid UTF-8 text: a file name with an undecodable byte as os.fsdecode gives it (lone surrogate), NUL, astral
+    ("param-string-with-a-lone-surrogate", [{"processor": "FloatValueDataSourceWithDefault"}, {"processor": UsesName}], {"name": "scan_\udcff.dat"}),
+    ("param-string-with-nul-and-astral", [{"processor": "FloatValueDataSourceWithDefault"}, {"processor": UsesName, "parameters": {"name": "a\x00b\U0001F600"}}], {}),
     ("fail-unresolved", [{"processor": "FloatValueDataSourceWithDefault"}, {"processor": "FloatMultiplyOperation"}], {}),
     ("fail-type", [{"processor": "FloatValueDataSourceWithDefault"}, {"processor": "FloatCollectionSumOperation"}], {}),
     ("ctx-flow", [{"processor": "FloatValueDataSourceWithDefault"}, {"processor": "FloatCollectValueProbe", "context_key": "factor"},
@@ -190,7 +200,7 @@ for name, nodes, ctx in CONFIGS:
                              "b": json.dumps(strip(t2)[diff], sort_keys=True)[:300] if diff is not None else len(t2)})
     if len(samples) < 2:
         samples.append({"config": name, "outcome": base[:2], "records": [r["record_type"] for r in t1]})
-print(json.dumps({"bound": "23 configurations (plain, model fitting, generated classes, two whose parameters are non-finite floats, four whose context holds one-shot iterators / generators consumed by the first or a later node, one whose data object has a raising __len__, three failing with non-JSON / wrapped / empty exception arguments, two with non-JSON parameter values (mixed key types, sets), identical nodes, 3 sweeps, unresolvable parameter, type gate, context flow with rename/delete, unknown parameter) x 4 detail levels; unrelated runs in between; 4 configurations x 2 detail levels compared with a fresh interpreter after traced runs at other detail levels",
+print(json.dumps({"bound": "25 configurations (plain, model fitting, generated classes, two whose parameters are non-finite floats, two whose string parameters hold a lone surrogate / NUL / astral characters, four whose context holds one-shot iterators / generators consumed by the first or a later node, one whose data object has a raising __len__, three failing with non-JSON / wrapped / empty exception arguments, two with non-JSON parameter values (mixed key types, sets), identical nodes, 3 sweeps, unresolvable parameter, type gate, context flow with rename/delete, unknown parameter) x 4 detail levels; unrelated runs in between; 4 configurations x 2 detail levels compared with a fresh interpreter after traced runs at other detail levels",
                   "evaluations": evaluations, "distinct_nontrivial": len(distinct),
                   "rule": "distinct = (configuration, detail level); outcome = returned data/context or exception type+message; traces compared after removing run_id, timestamps, timing, seq",
                   "failures": failures[:20], "samples": samples}, default=str))
